@@ -23,13 +23,28 @@
     * the cQASM front-end's assignment of declared qubit variables to qubits (`operand_lands_on_named_qubit`,
       `operand_index_injective`, `operand_index_in_range`, closed forms `operand_index_array` /
       `operand_index_single`: total width of the variables declared before, plus the index).
-  What is NOT proved (validated per instance by the correspondence, see manifest.d/C20.json):
-    * that the concrete catalog matrices (floating-point angles, SVD / sqrtm constructions, optimiser
-      fits) implement their gate — no `∀`-angle theorem for the multi-photon gates;
-    * that the logical table of a composed processor is the product of the tables of its parts
-      (Fock-space composition with heralds; `implements_comp` is the matrix-level statement only);
-    * that a forest of post-processed CNOTs is *sufficient* for the physics (photon-number argument);
-    * `_is_cyclic` (DFS) is modelled extensionally by the leaf criterion `Forest`.
+  Round 3 (sections "(1)".."(4)" below), proved for all inputs:
+    * Fock-space composition of implementations WITH heralds and post-selection, with the precise side conditions
+      (`fock_comp_tables`, `fock_comp_implements`, `heralds_enforced_midway`, `leak_return_condition_*`,
+      `heralded_gates_compose`, `heralded_circuit_implements_product`);
+    * a gate placed on arbitrary modes of a processor acts as the gate alone (spectator factorisation of
+      permanents: `placed_gate_amplitude`, `placed_gate_logical_amplitude`, `placed_gate_no_leak`,
+      `placed_gate_is_gateImpl`);
+    * the post-processed CZ / CNOT and the heralded CZ exactly as the catalog builds them: explicit matrices,
+      tables `(1/3)•CZ`, `(1/3)•CNOT`, `c•CZ` with `c² = 2/27`, success `1/9`, zero leakage
+      (`postprocessed_*`, `heralded_cz_*`), anywhere in a processor (`postprocessed_cnot_anywhere`,
+      `heralded_cz_anywhere`), and circuits of heralded CZs end to end (`heralded_cz_circuit`);
+    * the DFS `_is_cyclic` = not `Forest` (`is_cyclic_dfs_eq_not_forest`, `is_cyclic_dfs_node_map`);
+    * Ryser's formula = `Matrix.permanent` (`ryser_eq_permanent`, `evalAmp_eq_spec`).
+  What is still NOT proved (validated per instance by the correspondence, see manifest.d/C20.json):
+    * the other multi-photon catalog matrices (heralded CNOT, KLM CNOT, post-processed CCZ, Toffoli, the n-qubit
+      controlled rotations for all angles, optimiser-fitted one-qubit gates);
+    * that a *forest* of post-processed CNOTs meets the leak-and-return condition of `fock_comp_tables` at every
+      step of a whole circuit (the global photon-number argument; only the one-step facts
+      `photons_on_support_conserved`, `untouched_bad_pair_never_returns` and the reduction
+      `leak_return_condition_separated` are proved) — for circuits of *heralded* gates nothing is missing;
+    * that the mode mapping the converter computes is a `Placement` (it is compared with the model's
+      `createModeMap`/`planHeralds` by the correspondence, `mode_map_spec` is the proved part).
 -/
 import PercevalModel.Lemmas.C20
 import PercevalModel.Lemmas.C20Gates
@@ -37,6 +52,7 @@ import PercevalModel.Lemmas.C20Comp
 import PercevalModel.Lemmas.C20Ryser
 import PercevalModel.Lemmas.C20Place
 import PercevalModel.Lemmas.C20HeraldedCz
+import PercevalModel.Lemmas.C20Dfs
 import Mathlib.Analysis.Real.Sqrt
 import Mathlib.Data.Complex.Basic
 
@@ -671,6 +687,35 @@ theorem heralded_cz_circuit [Field R] [CharZero R] {L : Layout} (hok : L.ok = tr
     List.foldl_map] at key
   exact key
 
+/-! ### (3) the DFS `_is_cyclic` of the converter decides exactly the extensional criterion `Forest`
+(`Lemmas/C20Dfs.lean`: `adjList`, `dfsLoop`, `dfsUtil`, `isCyclic` transcribe `_find_max_ralph_pairs`' adjacency
+lists and `_is_cyclic_util` / `_is_cyclic` as the code is — visiting order, early exits, `parent != i`, shared
+`visited`; multigraphs, self-loops).  So every theorem above about `forestB`/`Forest` is a theorem about what the
+DFS answers. -/
+
+/-- **`_is_cyclic` = not `Forest`**, for every multigraph on the vertices `0..n-1` -/
+theorem is_cyclic_dfs_eq_not_forest (n : ℕ) (E : List Edge) (hE : ∀ e ∈ E, e.1 < n ∧ e.2 < n) :
+    isCyclic (adjList n E) n = !forestB E :=
+  isCyclic_eq_not_forest n E hE
+
+/-- safety direction alone: when the DFS says "acyclic" the edge multiset is a forest -/
+theorem is_cyclic_dfs_false_forest (n : ℕ) (E : List Edge) (hE : ∀ e ∈ E, e.1 < n ∧ e.2 < n)
+    (h : isCyclic (adjList n E) n = false) : Forest E :=
+  isCyclic_false_forest n E hE h
+
+/-- with the renumbering `node_map` of `_find_max_ralph_pairs` (any injective renaming of the vertices into
+`0..n-1`; the iteration order of the Python `set` does not matter) -/
+theorem is_cyclic_dfs_node_map (n : ℕ) (φ : ℕ → ℕ) (E : List Edge)
+    (hφ : ∀ a ∈ verts E, ∀ b ∈ verts E, φ a = φ b → a = b) (hn : ∀ a ∈ verts E, φ a < n) :
+    isCyclic (adjList n (E.map fun e => (φ e.1, φ e.2))) n = !forestB E :=
+  isCyclic_map_eq_not_forest n φ E hφ hn
+
+/-- `Forest` does not depend on the names of the vertices -/
+theorem forest_invariant_under_renaming (φ : ℕ → ℕ) (E : List Edge)
+    (hφ : ∀ a ∈ verts E, ∀ b ∈ verts E, φ a = φ b → a = b) :
+    Forest (E.map fun e => (φ e.1, φ e.2)) ↔ Forest E :=
+  forest_map_iff φ E hφ
+
 /-! ### (4) Ryser's formula (the driver's evaluation above six photons) is the permanent
 (`Lemmas/C20Ryser.lean`) -/
 
@@ -786,6 +831,10 @@ example : exL2.ok = true ∧ (∀ p ∈ exL2.heralds, p.2 ≤ 1) ∧
     (List.ofFn fun a : Fin 6 => (exP2.f a).val) = [2, 3, 4, 5, 8, 9] ∧
     (∀ hd ∈ exL2.heralds, hd.1 ∉ [0, 1, 2, 3, 6, 7] ∨ hd.1 ∉ [2, 3, 4, 5, 8, 9]) := by
   decide
+
+-- the DFS model on a triangle, a path, parallel edges, a self-loop (same answers as the real `_is_cyclic`)
+example : isCyclic (adjList 3 [(0, 1), (1, 2), (2, 0)]) 3 = true ∧ isCyclic (adjList 3 [(0, 1), (1, 2)]) 3 = false ∧
+    isCyclic (adjList 2 [(0, 1), (1, 0)]) 2 = true ∧ isCyclic (adjList 1 [(0, 0)]) 1 = true := by decide +kernel
 
 -- Ryser on a concrete 3×3 matrix
 example : permRyser (fun i j => ((3 * i + j + 1 : ℕ) : ℤ)) [0, 1, 2] [0, 1, 2] = 450 := by decide
